@@ -172,6 +172,87 @@ def part_io(sh, res):
     res.sample({'io_scenario': 'undecodable byte at every position x chunk sizes'})
 
 
+NAMELEN_QUERIES = ['select *', 'select a1', 'update set a1 = "u"', 'select * except a1', 'select distinct count *', 'select a1, b1 join b on a1 == b1', 'select b.*, a1 left join b on a1 == b1', 'select count(*)']
+
+
+def namelen_cases():
+    """column-name lists of every length 0..4 against tables of width 1..3 (input side and join side): a list whose length differs from the first record is
+    inconsistent input => IO-handling error, whatever the query; equal lengths (or an empty table) are fine"""
+    for q in NAMELEN_QUERIES:
+        for wa in (1, 2, 3):
+            for wb in (1, 2):
+                for na in range(0, 5):
+                    for nb in range(0, 4):
+                        for rows_a in (0, 1, 2):
+                            A = [['k'] * wa for _ in range(rows_a)]
+                            B = [['k'] * wb, ['m'] * wb]
+                            an = ['n%d' % i for i in range(na)]
+                            bn = ['j%d' % i for i in range(nb)]
+                            usesB = ' join ' in q
+                            if not usesB and (wb, nb) != (1, 1):
+                                continue
+                            bad = (rows_a > 0 and na != wa) or (usesB and nb != wb)
+                            yield q, A, (B if usesB else None), an, (bn if usesB else None), bad
+
+
+def part_namelen(sh, res):
+    eng = tree.engine()
+    jsbatch, jsmeta = [], []
+    for q, A, B, an, bn, bad in namelen_cases():
+        for route in ('query_table', 'query'):
+            err = None
+            try:
+                with core.watchdog(10):
+                    if route == 'query_table':
+                        eng.query_table(q, [list(r) for r in A], [], [], None if B is None else [list(r) for r in B], an, bn, [])
+                    else:
+                        reg = None if B is None else eng.ListTableRegistry([eng.ListTableInfo('b', [list(r) for r in B], bn)])
+                        eng.query(q, eng.TableIterator([list(r) for r in A], an), eng.TableWriter([]), [], reg)
+            except BaseException as e:
+                if isinstance(e, (KeyboardInterrupt, SystemExit)):
+                    raise
+                err = drive.classify_py(e)
+            res.evaluations += 1
+            res.traces += 1
+            res.states += 1
+            case = {'kind': 'name-list-length', 'route': route, 'query': q, 'A': A, 'B': B, 'input_names': an, 'join_names': bn}
+            if bad:
+                if err is None or err[0] != 'io':
+                    res.violation('not-an-io-handling-error', case, 'RbqlIOHandlingError', err)
+                else:
+                    res.feat('name_list_length_errors')
+                    res.nontrivial += 1
+            else:
+                if err is not None and err[0] == 'io':
+                    res.violation('spurious-io-handling-error', case, 'no IO-handling error', err)
+                else:
+                    res.feat('name_list_length_ok')
+        c = {'op': 'query', 'query': q.replace('"u"', "'u'"), 'input': A, 'input_names': an}
+        if B is not None:
+            c['join'] = B
+            c['join_names'] = bn
+        jsbatch.append(c)
+        jsmeta.append((q, A, B, an, bn, bad))
+    from vf import js
+    if js.available():
+        outs = js.run_batch(jsbatch)
+        for (q, A, B, an, bn, bad), o in zip(jsmeta, outs):
+            res.evaluations += 1
+            res.traces += 1
+            err = drive.classify_js(o['error']) if 'error' in o else None
+            case = {'kind': 'name-list-length', 'route': 'rbql-js query_table', 'query': q, 'A': A, 'B': B, 'input_names': an, 'join_names': bn}
+            if bad:
+                if err is None or err[0] != 'io':
+                    res.violation('js:not-an-io-handling-error', case, 'RbqlIOHandlingError', err if err else o.get('records'))
+                else:
+                    res.feat('js_name_list_length_errors')
+            elif err is not None and err[0] == 'io':
+                res.violation('js:spurious-io-handling-error', case, 'no IO-handling error', err)
+            else:
+                res.feat('js_name_list_length_ok')
+    res.sample({'name_list_lengths': '0..4 against widths 1..3, input and join side', 'queries': NAMELEN_QUERIES})
+
+
 def part_widths(sh, res):
     eng, rc = tree.engine(), tree.csvmod()
     cell = 'v'
@@ -403,7 +484,7 @@ def run_shard(sh):
     if sh['part'] == 'js':
         part_js(sh, res)
         return res
-    {'runtime': part_runtime, 'parsing': part_parsing, 'io': part_io, 'widths': part_widths, 'writer': part_writer, 'reader': part_reader}[sh['part']](sh, res)
+    {'namelen': part_namelen, 'runtime': part_runtime, 'parsing': part_parsing, 'io': part_io, 'widths': part_widths, 'writer': part_writer, 'reader': part_reader}[sh['part']](sh, res)
     return res
 
 
@@ -411,15 +492,15 @@ def main(tier, seed):
     t0 = time.time()
     maxn = 7 if tier == 'thorough' else 5
     shards = [{'part': 'runtime', 'lo': i, 'hi': i + 1, 'maxn': maxn} for i in range(len(poison_queries()))]
-    shards += [{'part': 'parsing'}, {'part': 'io'}, {'part': 'widths', 'maxn': maxn + 1}, {'part': 'writer'}, {'part': 'reader'}, {'part': 'js', 'maxn': 4}]
+    shards += [{'part': 'namelen'}, {'part': 'parsing'}, {'part': 'io'}, {'part': 'widths', 'maxn': maxn + 1}, {'part': 'writer'}, {'part': 'reader'}, {'part': 'js', 'maxn': 4}]
     res = core.run_shards('vf.checks.c14', shards)
     return core.finish(PID, tier, seed, res, t0,
         rule='runtime: 17 clause shapes x every non-empty subset of poisoned positions of tables up to the row bound (poisons: non-numeric, None, short row, unmatched strict key, non-constant column); '
-             'parsing: %d textual mistakes x 3 tables with a recording writer; IO: mode mismatches, wrong name lists, undecodable byte at every position x chunk sizes, defective rfc quoting; '
+             'parsing: %d textual mistakes x 3 tables with a recording writer; IO: mode mismatches, wrong name lists (every length 0..4 against widths 1..3 on the input and the join side x 8 queries, rbql-py two routes and rbql-js), undecodable byte at every position x chunk sizes, defective rfc quoting; '
              'warnings: all width patterns up to the row bound over widths 0..3 (table and CSV input), CSV writer None / delimiter warnings over all small output tables x 5 dialects, reader BOM / quoting warnings' % len(PARSE_MISTAKES),
         assumptions=['record numbers in the field-count warning are asserted for header-less, whole-scan queries only (the quantifier)', 'RefQL computes the first offending record'],
         extra={'row_bound': maxn},
-        min_features={'runtime_errors_located': 300, 'first_offender_not_record_1': 100, 'parsing_errors': 50, 'io_errors': 20, 'ragged_tables': 200, 'rectangular_tables': 10,
+        min_features={'name_list_length_errors': 1000, 'js_name_list_length_errors': 500, 'name_list_length_ok': 100, 'runtime_errors_located': 300, 'first_offender_not_record_1': 100, 'parsing_errors': 50, 'io_errors': 20, 'ragged_tables': 200, 'rectangular_tables': 10,
                       'js_reader_cases': 100, 'js_io_errors': 4, 'outputs_with_none': 50, 'outputs_with_delimiter_in_field': 50, 'reader_warning_cases': 5})
 
 
